@@ -49,7 +49,13 @@ struct Monitor {
     std::vector<std::vector<long>> slot_since;
     std::vector<std::vector<bool>> slot_valid;   // value obtained by protect / UPWARD copy of a valid guard (second sentence of C01)
     std::vector<std::vector<bool>> slot_lineage; // value obtained by protect / any copy of such a guard (known finding: downward copies)
-    long viol_guarded = 0, viol_double = 0, viol_touch = 0, viol_unretired = 0, viol_copy_down = 0;
+    long viol_guarded = 0, viol_double = 0, viol_touch = 0, viol_unretired = 0, viol_copy_down = 0, viol_kept = 0;
+    // C03, third sentence: history of what each guard slot may have held (conservative: a value counts from the log index at
+    // which the operation storing it began to the log index at which the operation overwriting it ended; a protect() loop
+    // may have stored anything while it ran)
+    struct Iv { long from, to, val; bool any; };
+    std::vector<std::vector<std::vector<Iv>>> hist;
+    std::vector<std::vector<long>> h_val, h_from, h_busy;     // h_busy: log index at which a slot-writing operation in progress began, or -1
     std::string first_viol;
     int destroying_tid = -1;
 } M;
@@ -58,6 +64,45 @@ static long obj_of( void* p ) { return p ? (long)( (unsigned char*) p - g_arena 
 static void* ptr_of( long o ) { return o ? (void*)( g_arena + o ) : nullptr; }
 
 static void note( std::string const& s ) { if ( M.first_viol.empty()) M.first_viol = s; }
+
+static void hset( int t, long a, long newval, long op_start, bool any )
+{
+    long now = (long) vs::S().log.size();
+    M.hist[t][a].push_back( Monitor::Iv{ M.h_from[t][a], now, M.h_val[t][a], false } );
+    if ( any ) M.hist[t][a].push_back( Monitor::Iv{ op_start, now, 0, true } );
+    M.h_val[t][a] = newval; M.h_from[t][a] = op_start; M.h_busy[t][a] = -1;
+}
+static bool possibly_held( long o, long s, long e )
+{
+    for ( int u = 0; u < M.nthreads; ++u )
+        for ( int j = 0; j < M.H; ++j ) {
+            if ( M.h_val[u][j] == o && M.h_from[u][j] <= e ) return true;
+            if ( M.h_busy[u][j] >= 0 && M.h_busy[u][j] <= e ) return true;    // an operation writing this slot is in progress
+            for ( auto const& iv : M.hist[u][j] )
+                if (( iv.any || iv.val == o ) && iv.from <= e && iv.to >= s ) return true;
+        }
+    return false;
+}
+// after an operation of thread t that ran a scan of its own retired array (retire with a full array, HP::scan): every cell the
+// scan left in the array must have been in some hazard slot at some moment of that scan
+static void check_kept( int t, thread_data* td, long op_start )
+{
+    auto const& log = vs::S().log;
+    long s = -1, e = (long) log.size();
+    std::string pre = std::to_string( t ) + " faa ";
+    for ( long i = e - 1; i >= op_start; --i )
+        if ( log[i].compare( 0, pre.size(), pre ) == 0 ) { s = i; break; }
+    if ( s < 0 ) return;
+    vs::passthrough_scope ps;
+    for ( auto* f = td->retired_.first(), *l = td->retired_.last(); f != l; ++f ) {
+        long o = obj_of( f->m_p );
+        if ( !possibly_held( o, s, e )) {
+            ++M.viol_kept;
+            note( "object " + std::to_string( o ) + " is still in the retired array of thread " + std::to_string( t ) + " after its scan (log lines "
+                  + std::to_string( s ) + ".." + std::to_string( e ) + ") although no hazard slot held it at any moment of that scan" );
+        }
+    }
+}
 
 static void disposer( void* p )
 {
@@ -117,6 +162,10 @@ int main( int argc, char** argv )
             M.slot_since.assign( n, std::vector<long>( realH, 0 ));
             M.slot_valid.assign( n, std::vector<bool>( realH, false ));
             M.slot_lineage.assign( n, std::vector<bool>( realH, false ));
+            M.hist.assign( n, std::vector<std::vector<Monitor::Iv>>( realH ));
+            M.h_val.assign( n, std::vector<long>( realH, 0 ));
+            M.h_from.assign( n, std::vector<long>( realH, 0 ));
+            M.h_busy.assign( n, std::vector<long>( realH, -1 ));
 
             vcase::run_workers( c, [&]( int t ) {
                 bool attached = false;
@@ -138,11 +187,15 @@ int main( int argc, char** argv )
                         continue;
                     }
                     thread_data* td = smr::tls();
+                    long op_start = logsize();
+                    if ( code == 3 || code == 4 || code == 5 || code == 10 ) M.h_busy[t][a] = op_start;
+                    if ( code == 2 ) for ( size_t j = 0; j < realH; ++j ) M.h_busy[t][j] = op_start;
                     switch ( code ) {
                     case 2: {
                         vcase::emitf( "detach" );
                         for ( size_t j = 0; j < realH; ++j ) { M.slot_val[t][j] = 0; M.slot_valid[t][j] = false; M.slot_lineage[t][j] = false; }
                         smr::detach_thread();
+                        for ( size_t j = 0; j < realH; ++j ) hset( t, (long) j, 0, op_start, false );
                         attached = false;
                         vcase::emitf( "detached" );
                         break; }
@@ -153,6 +206,7 @@ int main( int argc, char** argv )
                         void* p = g.protect( src[b] );
                         g.release();
                         M.slot_val[t][a] = obj_of( p ); M.slot_since[t][a] = logsize(); M.slot_valid[t][a] = p != nullptr; M.slot_lineage[t][a] = p != nullptr;
+                        hset( t, a, obj_of( p ), op_start, true );
                         vcase::emitf( "protected %ld %ld", a, obj_of( p ));
                         break; }
                     case 4: {
@@ -162,6 +216,7 @@ int main( int argc, char** argv )
                         if ( b ) g.assign( (unsigned char*) ptr_of( b )); else g.clear();
                         g.release();
                         M.slot_val[t][a] = b; M.slot_since[t][a] = logsize();
+                        hset( t, a, b, op_start, false );
                         vcase::emitf( "assigned" );
                         break; }
                     case 5: {
@@ -170,6 +225,7 @@ int main( int argc, char** argv )
                         HP::Guard g( nullptr ); g.guard_ref() = &td->hazards_[a];
                         g.clear();
                         g.release();
+                        hset( t, a, 0, op_start, false );
                         vcase::emitf( "cleared" );
                         break; }
                     case 6: {
@@ -180,6 +236,7 @@ int main( int argc, char** argv )
                             ++M.retired[obj_of( old )];
                             vcase::emitf( "retire %ld", obj_of( old ));
                             HP::retire( (unsigned char*) old, disposer );
+                            check_kept( t, td, op_start );
                             vcase::emitf( "retired" );
                         }
                         break; }
@@ -188,11 +245,13 @@ int main( int argc, char** argv )
                         ++M.retired[a];
                         vcase::emitf( "retire %ld", a );
                         HP::retire( (unsigned char*) ptr_of( a ), disposer );
+                        check_kept( t, td, op_start );
                         vcase::emitf( "retired" );
                         break; }
                     case 8: {
                         vcase::emitf( "scan" );
                         HP::scan();
+                        check_kept( t, td, op_start );
                         vcase::emitf( "scanned" );
                         break; }
                     case 9: {
@@ -217,6 +276,7 @@ int main( int argc, char** argv )
                         // already running reads the slots in ascending order and would otherwise miss the pointer once the
                         // source is released (LV.Properties.Properties_C01: C01_copy_down_unsafe)
                         M.slot_val[t][a] = v; M.slot_since[t][a] = logsize(); M.slot_valid[t][a] = valid && b <= a; M.slot_lineage[t][a] = lineage;
+                        hset( t, a, v, op_start, false );
                         vcase::emitf( "copied" );
                         break; }
                     }
@@ -235,8 +295,8 @@ int main( int argc, char** argv )
                 note( "after destruction object " + std::to_string( kv.first ) + " retired " + std::to_string( kv.second ) + " time(s), disposed " + std::to_string( M.disposed[kv.first] ));
             }
         }
-        std::printf( "monitor guarded_dispose %ld double_dispose %ld unretired_dispose %ld touch_disposed %ld not_exactly_once %ld copy_down_disposed %ld retired %ld\n",
-                     M.viol_guarded, M.viol_double, M.viol_unretired, M.viol_touch, missing, M.viol_copy_down, total_retired );
+        std::printf( "monitor guarded_dispose %ld double_dispose %ld unretired_dispose %ld touch_disposed %ld not_exactly_once %ld copy_down_disposed %ld kept_unguarded %ld retired %ld\n",
+                     M.viol_guarded, M.viol_double, M.viol_unretired, M.viol_touch, missing, M.viol_copy_down, M.viol_kept, total_retired );
         std::string counts = "monitor counts";
         for ( auto const& kv : M.retired ) counts += " " + std::to_string( kv.first ) + ":" + std::to_string( M.disposed[kv.first] );
         std::printf( "%s\n", counts.c_str());
